@@ -7,7 +7,10 @@ R20a validity predicate: TMCG_OpenPGP_Signature::CheckValidity evaluated piecewi
 R20b CheckIntegrity returns the verdict of the algorithm's verifier and rejects unknown algorithms,
 R20c Message::Decrypt returns true only through AEAD success or a valid MDC on an integrity
      protected packet; CheckMDC compares the recomputed hash; AEAD output is appended only after
-     the chunk tag was checked."""
+     the chunk tag was checked,
+R20e each AsymmetricVerify<ALGO> returns the success code (0) only together with libgcrypt's
+     verdict: every exit returns gcry_pk_verify's result, a value known to be non-zero on that
+     path, or 0 under the fact that gcry_pk_verify returned 0."""
 from .. import evalx
 from ..pieceeval import PieceEval
 from ..facts import AnalysisBroken
@@ -22,6 +25,7 @@ def run(ctx):
     r20b(ctx)
     r20c(ctx)
     r20d(ctx)
+    r20e(ctx)
 
 
 def hash_enum(prog):
@@ -258,3 +262,41 @@ def r20d(ctx):
             else:
                 ctx.ok('R20d', k, 'both algorithm branches pass the same values for all %d common constructor parameters' % len([x for x in p1 if x in m2]), f, line=s1[3])
     ctx.floor('R20d', n, 4)
+
+
+def r20e(ctx):
+    prog = ctx.prog
+    n = 0
+    for algo in ('RSA', 'DSA', 'ECDSA', 'EdDSA'):
+        f = prog.fn('CallasDonnerhackeFinneyShawThayerRFC4880::AsymmetricVerify' + algo, 0)
+        a = ctx.analysis(f)
+        T = a.T
+        bad = None
+        nex = 0
+        for n_, kind, val, st in a.exits():
+            if kind != 'return' or val is None:
+                continue
+            nex += 1
+            vn = T.node(val)
+            verified = any(T.node(fa)[0] == 'falsy' and T.node(T.node(fa)[1])[0] == 'callr' and T.node(T.node(fa)[1])[1] == 'gcry_pk_verify'
+                           for fa in st.facts)
+            if vn[0] == 'callr' and vn[1] == 'gcry_pk_verify':
+                continue                      # the verdict itself
+            if vn[0] == 'int' and vn[1] != 0:
+                continue
+            if vn[0] == 'callr' and vn[1] in ('gcry_error', 'gpg_error') and len(vn) > 2 and T.is_int(vn[2]) and T.node(vn[2])[1] != 0:
+                continue                      # an explicit error code
+            if a.truth(val, True) in st.facts:
+                continue                      # returned under `if (ret)`: non-zero
+            if verified:
+                continue                      # success after gcry_pk_verify returned 0
+            bad = (T.show(val, 3), n_)
+            break
+        n += 1
+        key = 'R20e:AsymmetricVerify' + algo
+        if bad is None and nex >= 3:
+            ctx.ok('R20e', key, 'all %d exits return libgcrypt\'s verdict, a non-zero error, or 0 after gcry_pk_verify succeeded' % nex, f)
+        else:
+            ctx.bad('R20e', key, 'an exit returns %s, which can be the success code, on a path where gcry_pk_verify did not report success: '
+                    'a malformed signature is reported as valid' % (bad[0] if bad else 'nothing'), f)
+    ctx.floor('R20e', n, 4)
